@@ -259,9 +259,11 @@ def check_state(o, recs, kdev, ctx, root, hist):
         judgeable = all(n >= 2 for n in n_acc) and _stats_defined(o)
     kind = "diffuse" if isinstance(o, HvsrDiffuseField) else "trad" if isinstance(o, HvsrTraditional) else "azi"
     # ---- plot_single_panel_hvsr_curves --------------------------------------
-    for opts in product.deviations(SINGLE_PANEL_SPACE, kdev):
+    for oi, opts in enumerate(product.deviations(SINGLE_PANEL_SPACE, kdev)):
         ax = _Fig.ax()
-        work = copy.deepcopy(o)
+        # the default combination is drawn from the LIVE object of the history (which has been drawn
+        # before, see observe()); the others from deep copies
+        work = o if oi == 0 else copy.deepcopy(o)
         detail = dict(hist=list(hist), options=opts)
         res, exc = _guarded(lambda: PP.plot_single_panel_hvsr_curves(work, ax=ax, **opts), work, None, ctx, root,
                             detail, f"plot_single_panel_hvsr_curves:{kind}")
@@ -474,20 +476,27 @@ class TradSystem(c05.System):
                 keep.append(op)
             elif op["op"] == "F" and op["dfn"] == op["dmc"] == "lognormal" and op["rng"] == [None, None]:
                 keep.append(op)
-            elif op["op"] in ("M", "T"):
+            elif op["op"] in ("M", "T", "A", "X"):
                 keep.append(op)
         self.ops = keep
 
     def initial(self, root):
         h = c05.Holder(HvsrTraditional(self.freq, self.curves, meta=c12.real_meta("trad")))
         for op in root.get("prefix", []):
+            self.observe(h)
             self.apply(h, op)
         return h
 
     def observe(self, h):
-        # "touch": read the statistics (as a user would between steps) but merge states on canon only
+        # "touch": read the statistics AND draw the live object (as a user would between steps);
+        # states are merged on canon only
         for name, args in ACCESSORS:
             _call(h.obj, name, args, "lognormal")
+        try:
+            with contextlib.redirect_stdout(io.StringIO()), np.errstate(all="ignore"):
+                PP.plot_single_panel_hvsr_curves(h.obj, ax=_Fig.ax())
+        except Exception:       # noqa: BLE001 - undefined statistics in this state; judged elsewhere
+            pass
         return None
 
     def invariant(self, h, hist, ctx, root):
@@ -505,13 +514,20 @@ class AziSystem(c11.System):
     def initial(self, root):
         h = super().initial(root)
         for op in root.get("prefix", []):
+            self.observe(h)
             self.apply(h, op)
         return h
 
     def observe(self, h):
-        # "touch": read the statistics (as a user would between steps) but merge states on canon only
+        # "touch": read the statistics AND draw the live object (as a user would between steps);
+        # states are merged on canon only
         for name, args in ACCESSORS:
             _call(h.obj, name, args, "lognormal")
+        try:
+            with contextlib.redirect_stdout(io.StringIO()), np.errstate(all="ignore"):
+                PP.plot_single_panel_hvsr_curves(h.obj, ax=_Fig.ax())
+        except Exception:       # noqa: BLE001 - undefined statistics in this state; judged elsewhere
+            pass
         return None
 
     def invariant(self, h, hist, ctx, root):
@@ -547,6 +563,8 @@ def _base_roots(tier):
     out = []
     if tier == "quick":
         out.append(dict(kind="trad", grid="lin", F=7, shapes=["p2", "p4", "twopk", "p3"], depth=1, kdev=1))
+        # draw, change WHICH windows are accepted but not how many, draw again (same live object)
+        out.append(dict(kind="trad", grid="lin", F=7, shapes=["p2", "p4", "p3"], depth=2, kdev=0, reaccept=True))
         out.append(dict(kind="trad", grid="lin", F=7, shapes=["p2", "p2", "steep_up"], depth=1, kdev=1))
         out.append(dict(kind="trad", grid="geo", F=7, shapes=["p1", "p5", "p3", "up"], depth=1, kdev=1))
         out.append(dict(kind="azi", grid="lin", F=7, shapes_by_az=[["p2", "p4", "p3"], ["p1", "twopk", "p5"]],
@@ -557,6 +575,9 @@ def _base_roots(tier):
               ["plateau", "p2", "p3", "flat"], ["p3", "p3", "p4"]):
         out.append(dict(kind="trad", grid="lin", F=7, shapes=s, depth=2, kdev=1))
         out.append(dict(kind="trad", grid="lin", F=7, shapes=s, depth=1, kdev=2))
+    out.append(dict(kind="trad", grid="lin", F=7, shapes=["p2", "p4", "p3", "p5"], depth=2, kdev=0, reaccept=True))
+    out.append(dict(kind="azi", grid="lin", F=7, shapes_by_az=[["p2", "p4", "p3"], ["p1", "twopk", "p5"]],
+                    depth=2, kdev=0, reaccept=True, ops_subset="MA"))
     for sh in ([["p2", "p4", "p3"], ["p1", "twopk", "p5"]], [["p2", "p4", "p3"]],
                [["p3", "p3", "p4"], ["q3", "p2", "tie"], ["p2", "p4", "p3"]]):
         out.append(dict(kind="azi", grid="lin", F=7, shapes_by_az=sh, depth=2 if len(sh) < 3 else 1, kdev=1))
